@@ -846,6 +846,14 @@ def make_run(prop, bias, scenario_filter=None, quick_cases=1280, thorough_cases=
         def body(case):
             sim = run_case(case, ctx.scratch)
             labels = labels_of(sim, case)
+            if sim.error is None:
+                # how far below the watchdog bounds the completed traversals stay
+                ctx.extra["max_traversal_steps"] = max(ctx.extra.get("max_traversal_steps", 0), sim.steps)
+                ctx.extra["max_loop_iterations"] = max(ctx.extra.get("max_loop_iterations", 0), sim.iterations)
+                ctx.extra["max_steps_without_progress"] = max(ctx.extra.get("max_steps_without_progress", 0), sim.max_gap)
+                composites = max(1, len([n for n in sim.graph.nodes if not n.is_flat()]))
+                per_node = sim.executions / composites
+                ctx.extra["max_executions_per_node_x1000"] = max(ctx.extra.get("max_executions_per_node_x1000", 0), int(per_node * 1000))
             try:
                 judge(sim, case, prop, ctx.known)
             finally:
